@@ -1,5 +1,6 @@
 import TruthModel.Model.Fmt
 import TruthModel.Model.FmtExpr
+import TruthModel.Model.FmtStmt
 import TruthModel.Driver.Sexp
 /-
 Driver glue for C08 (trusted, not part of any theorem).
@@ -23,6 +24,23 @@ Cases:
          | (int V signed|unsigned dec|hex|bin|bool) | (flt BITS "magnitude text") | (fltt "token text")
          | (str "s") | (labelprop offsetof|timeof "l") | (enumc "e" "i")
   VAR ::= (v none|int|float n "name") | (v none|int|float r N)     NAME ::= (n "ident") | (ins N)
+Statement layer (Model/FmtStmt.lean):
+  (sprint W STMT)  -> (ok "text") | (fmtpanic "msg")      FmtStmt.renderStmt W (layout at target width W)
+  (bprint W BLOCK) -> (ok "text") | (fmtpanic "msg")      FmtStmt.renderBlock W
+  (stoks W STMT)   -> (toks END (CLASS "text")...) | (fmtpanic "msg")
+        the tokens of the printed statement (width-independent): `FmtStmt.printStmt` when `FmtStmt.OKS` holds
+        (the hypothesis that the joined text lexes to the written tokens, compared with the real lexer on
+        the real text), otherwise `Fmt.lex` of the rendered text
+  (sparse "text")  -> (ok STMT) | reject               FmtStmt.parseStmtText
+  (bparse "text")  -> (ok BLOCK) | reject              FmtStmt.parseBlockText
+  STMT ::= (stmt DIFF KIND)    DIFF ::= _ | (d "string")    BLOCK ::= (b STMT...)
+  KIND ::= (jump JUMP) | (ret) | (ret EXPR) | (condjump KW EXPR JUMP) | (chain KW EXPR BLOCK CH...)
+         | (loop BLOCK) | (while EXPR BLOCK) | (dowhile BLOCK EXPR) | (times _|VAR EXPR BLOCK) | (expr EXPR)
+         | (block BLOCK) | (assign VAR OP EXPR) | (decl TY (VAR)|(VAR EXPR)...) | (callsub at|noat ASYNC "f" EXPR...)
+         | (label "n") | (interrupt EXPR) | (abstime N) | (reltime EXPR)
+  JUMP ::= (goto "l") | (goto "l" N) | (break)     CH ::= (elif KW EXPR BLOCK) | (else BLOCK)
+  ASYNC ::= _ | async | (asyncid EXPR)    KW ::= if | unless    TY ::= int|float|string|var|void
+  OP ::= Assign|Add|Sub|Mul|Div|Rem|BitOr|BitXor|BitAnd|ShiftLeft|ShiftRightSigned|ShiftRightUnsigned
 -/
 namespace TruthModel.Driver.C08
 open TruthModel TruthModel.Fmt
@@ -183,6 +201,146 @@ partial def casesSexp (cs : Cases) : List Sexp :=
   | .some e r => exprSexp e :: casesSexp r
 end
 
+
+/-! ### statements -/
+open TruthModel.FmtStmt
+
+def assignOpNames : List (String × AssignOp) :=
+  [("Assign", .assign), ("Add", .add), ("Sub", .sub), ("Mul", .mul), ("Div", .div), ("Rem", .rem), ("BitOr", .bitOr),
+   ("BitXor", .bitXor), ("BitAnd", .bitAnd), ("ShiftLeft", .shl), ("ShiftRightSigned", .shr), ("ShiftRightUnsigned", .ushr)]
+
+def tyNames : List (String × TypeKw) :=
+  [("int", .int), ("float", .float), ("string", .string), ("var", .var), ("void", .void)]
+
+def kwOf (s : Sexp) : CondKw := if s.asAtom == "unless" then .unless else .if_
+def kwName : CondKw → String
+  | .if_ => "if" | .unless => "unless"
+
+def toJump (s : Sexp) : Jump :=
+  let a := s.args
+  match s.head? with
+  | some "goto" =>
+    match a with
+    | [l] => .goto l.asAtom.toList none
+    | l :: t :: _ => .goto l.asAtom.toList (some (Int32.ofInt t.asInt))
+    | _ => .brk
+  | _ => .brk
+
+def toDiff (s : Sexp) : Option (List Char) :=
+  match s.head? with
+  | some "d" => some (s.args[0]!).asAtom.toList
+  | _ => none
+
+def toAsync (s : Sexp) : Async :=
+  match s.head? with
+  | some "asyncid" => .id (toExpr (s.args[0]!))
+  | _ => if s.asAtom == "async" then .plain else .none
+
+def toDeclVar (s : Sexp) : Var × Option Expr :=
+  match s.items with
+  | [v] => (toVar v, none)
+  | v :: e :: _ => (toVar v, some (toExpr e))
+  | _ => (default, none)
+
+mutual
+partial def toKind (s : Sexp) : Kind :=
+  let a := s.args
+  match s.head? with
+  | some "jump" => .jump (toJump (a[0]!))
+  | some "ret" => match a with
+    | [] => .ret none
+    | e :: _ => .ret (some (toExpr e))
+  | some "condjump" => .condJump (kwOf (a[0]!)) (toExpr (a[1]!)) (toJump (a[2]!))
+  | some "chain" => .condChain (kwOf (a[0]!)) (toExpr (a[1]!)) (toBlock (a[2]!)) (toChain (a.drop 3))
+  | some "loop" => .loop (toBlock (a[0]!))
+  | some "while" => .while_ (toExpr (a[0]!)) (toBlock (a[1]!))
+  | some "dowhile" => .doWhile (toBlock (a[0]!)) (toExpr (a[1]!))
+  | some "times" =>
+    .times (if (a[0]!).head?.isNone then none else some (toVar (a[0]!))) (toExpr (a[1]!)) (toBlock (a[2]!))
+  | some "expr" => .expr (toExpr (a[0]!))
+  | some "block" => .block (toBlock (a[0]!))
+  | some "assign" => .assign (toVar (a[0]!)) (lookupD assignOpNames (a[1]!).asAtom .assign) (toExpr (a[2]!))
+  | some "decl" => .decl (lookupD tyNames (a[0]!).asAtom .int) ((a.drop 1).map toDeclVar)
+  | some "callsub" => .callSub ((a[0]!).asAtom == "at") (toAsync (a[1]!)) (a[2]!).asAtom.toList (toExprs (a.drop 3))
+  | some "label" => .label (a[0]!).asAtom.toList
+  | some "interrupt" => .interrupt (toExpr (a[0]!))
+  | some "abstime" => .absTime (Int32.ofInt (a[0]!).asInt)
+  | some "reltime" => .relTime (toExpr (a[0]!))
+  | _ => .label "bad-kind".toList
+partial def toBlockItems (xs : List Sexp) : Block :=
+  match xs with
+  | [] => .nil
+  | x :: r => .cons (toDiff (x.args[0]!)) (toKind (x.args[1]!)) (toBlockItems r)
+partial def toBlock (s : Sexp) : Block := toBlockItems s.args
+partial def toChain (xs : List Sexp) : Chain :=
+  match xs with
+  | [] => .nil
+  | x :: r =>
+    match x.head? with
+    | some "else" => .els (toBlock (x.args[0]!))
+    | _ => .elif (kwOf (x.args[0]!)) (toExpr (x.args[1]!)) (toBlock (x.args[2]!)) (toChain r)
+end
+
+def toStmt (s : Sexp) : Stmt := { diff := toDiff (s.args[0]!), kind := toKind (s.args[1]!) }
+
+def jumpSexp : Jump → Sexp
+  | .goto l none => Sexp.app "goto" [str l]
+  | .goto l (some t) => Sexp.app "goto" [str l, Sexp.int t.toInt]
+  | .brk => Sexp.app "break" []
+
+def diffSexp : Option (List Char) → Sexp
+  | none => .atom "_"
+  | some s => Sexp.app "d" [str s]
+
+def asyncSexp : Async → Sexp
+  | .none => .atom "_"
+  | .plain => .atom "async"
+  | .id e => Sexp.app "asyncid" [exprSexp e]
+
+def declVarSexp : Var × Option Expr → Sexp
+  | (v, none) => .list [varSexp v]
+  | (v, some e) => .list [varSexp v, exprSexp e]
+
+mutual
+partial def kindSexp (k : Kind) : Sexp :=
+  match k with
+  | .jump j => Sexp.app "jump" [jumpSexp j]
+  | .ret none => Sexp.app "ret" []
+  | .ret (some e) => Sexp.app "ret" [exprSexp e]
+  | .condJump kw c j => Sexp.app "condjump" [.atom (kwName kw), exprSexp c, jumpSexp j]
+  | .condChain kw c b rest => Sexp.app "chain" (.atom (kwName kw) :: exprSexp c :: blockSexp b :: chainSexp rest)
+  | .loop b => Sexp.app "loop" [blockSexp b]
+  | .while_ c b => Sexp.app "while" [exprSexp c, blockSexp b]
+  | .doWhile b c => Sexp.app "dowhile" [blockSexp b, exprSexp c]
+  | .times cl n b => Sexp.app "times" [match cl with | none => .atom "_" | some v => varSexp v, exprSexp n, blockSexp b]
+  | .expr e => Sexp.app "expr" [exprSexp e]
+  | .block b => Sexp.app "block" [blockSexp b]
+  | .assign v op e => Sexp.app "assign" [varSexp v, .atom (nameOf assignOpNames op), exprSexp e]
+  | .decl ty vars => Sexp.app "decl" (.atom (nameOf tyNames ty) :: vars.map declVarSexp)
+  | .callSub atSym as f args => Sexp.app "callsub" (.atom (if atSym then "at" else "noat") :: asyncSexp as :: str f :: exprsSexp args)
+  | .label n => Sexp.app "label" [str n]
+  | .interrupt e => Sexp.app "interrupt" [exprSexp e]
+  | .absTime t => Sexp.app "abstime" [Sexp.int t.toInt]
+  | .relTime d => Sexp.app "reltime" [exprSexp d]
+partial def blockItemsSexp (b : Block) : List Sexp :=
+  match b with
+  | .nil => []
+  | .cons d k rest => Sexp.app "stmt" [diffSexp d, kindSexp k] :: blockItemsSexp rest
+partial def blockSexp (b : Block) : Sexp := Sexp.app "b" (blockItemsSexp b)
+partial def chainSexp (c : Chain) : List Sexp :=
+  match c with
+  | .nil => []
+  | .els b => [Sexp.app "else" [blockSexp b]]
+  | .elif kw c b rest => Sexp.app "elif" [.atom (kwName kw), exprSexp c, blockSexp b] :: chainSexp rest
+end
+
+def stmtSexp (s : Stmt) : Sexp := Sexp.app "stmt" [diffSexp s.diff, kindSexp s.kind]
+
+def outcomeText : Outcome (List Char) → Sexp
+  | .ok t => Sexp.app "ok" [str t]
+  | .err c => Sexp.app "err" [.str c]
+  | .panic p => Sexp.app "fmtpanic" [.str p]
+
 /-- block layout writes a comma after the last item: not a token the inline layout has -/
 def dropTrailingCommas : List Tok → List Tok
   | [] => []
@@ -222,6 +380,23 @@ def handle (case : Sexp) : Sexp :=
   | some "eparse" =>
     match parseText (a[0]!).asAtom.toList with
     | some e => Sexp.app "ok" [exprSexp e]
+    | none => .atom "reject"
+  | some "sprint" => outcomeText (renderStmt (a[0]!).asNat (toStmt (a[1]!)))
+  | some "bprint" => outcomeText (renderBlock (a[0]!).asNat (toBlock (a[1]!)))
+  | some "stoks" =>
+    let s := toStmt (a[1]!)
+    match renderStmt (a[0]!).asNat s with
+    | .ok text =>
+      let r : List Tok × LexEnd := if OKS s then (printStmt s, .eof) else lex text
+      Sexp.app "toks" (.atom (endName r.2) :: (dropTrailingCommas r.1).map tokSexp)
+    | other => outcomeText other
+  | some "sparse" =>
+    match parseStmtText (a[0]!).asAtom.toList with
+    | some s => Sexp.app "ok" [stmtSexp s]
+    | none => .atom "reject"
+  | some "bparse" =>
+    match parseBlockText (a[0]!).asAtom.toList with
+    | some b => Sexp.app "ok" [blockSexp b]
     | none => .atom "reject"
   | _ => .atom "bad-case"
 
